@@ -351,3 +351,31 @@ Proof.
       detect_chunk_size factory data detect_chunk_size_pos).
 Qed.
 Print Assumptions C06_detect_file_format_total.
+
+(* ---- what [first_abort] means ---------------------------------------------------------- *)
+(* first_abort i cs = Some (j, a): feeding the inspector ALONE, chunks 0..j-1 are eaten without
+   exception and after none of them it is complete without matching; chunk j makes it raise
+   e (a = AbFault e) or is eaten and leaves it complete without matching (a = AbMismatch) *)
+Theorem C06_first_abort_spec :
+  forall I eat complete fmatch cs (i : I) j a,
+  first_abort I eat complete fmatch i cs = Some (j, a) ->
+  snd (feed I eat i (firstn j cs)) = false /\
+  (forall k, (0 < k <= j)%nat ->
+     let ik := fst (feed I eat i (firstn k cs)) in complete ik && negb (fmatch ik) = false) /\
+  let ij := fst (feed I eat i (firstn j cs)) in
+  match a with
+  | AbFault e => snd (eat ij (nth j cs [])) = Some e
+  | AbMismatch => snd (eat ij (nth j cs [])) = None /\
+                  complete (fst (eat ij (nth j cs []))) && negb (fmatch (fst (eat ij (nth j cs [])))) = true
+  end.
+Proof. exact (fun I eat complete fmatch => first_abort_spec I eat (fun x => x) complete fmatch gen_shape gen_shape_ok). Qed.
+Print Assumptions C06_first_abort_spec.
+
+Theorem C06_first_abort_none_spec :
+  forall I eat complete fmatch cs (i : I),
+  first_abort I eat complete fmatch i cs = None ->
+  snd (feed I eat i cs) = false /\
+  (forall k, (0 < k <= length cs)%nat ->
+     let ik := fst (feed I eat i (firstn k cs)) in complete ik && negb (fmatch ik) = false).
+Proof. exact (fun I eat complete fmatch => first_abort_none_spec I eat (fun x => x) complete fmatch gen_shape gen_shape_ok). Qed.
+Print Assumptions C06_first_abort_none_spec.
